@@ -360,15 +360,55 @@ Proof.
   destruct (digit1 (Z.abs z)); reflexivity.
 Qed.
 
-(* alt / insertion code column: blank when missing *)
-Lemma col1 it : missing_or (okv 1 1) it = true ->
+Lemma plain1_inv s : plain1 s = true ->
+  String.length s = 1 /\ noblank s = true /\ is_missing (Some s) = false.
+Proof.
+  unfold plain1. intros H. apply andb_true_iff in H as [H1 H2].
+  apply okv_inv in H1 as (Hn & L1 & L2). apply negb_true_iff in H2.
+  split; [lia|]. split; [exact Hn|].
+  apply orb_false_iff in H2 as [Hd Hq].
+  cbn [is_missing]. rewrite Hd, Hq, !orb_false_r.
+  destruct s; [cbn in L1; lia|reflexivity].
+Qed.
+
+(* alt / insertion code column of the spec: blank when missing *)
+Lemma col1 it : missing_or plain1 it = true ->
   String.length (ljust 1 (tok_or "" it)) = 1 /\ strip (ljust 1 (tok_or "" it)) = tok_or "" it.
 Proof.
   destruct it as [| | |s]; cbn [missing_or tok_or]; intros H; try discriminate; try (split; reflexivity).
-  apply okv_inv in H as (Hn & H1 & H2). split.
+  apply plain1_inv in H as (L & Hn & _). split.
   - rewrite length_ljust. lia.
   - now apply strip_ljust.
 Qed.
+
+Lemma mv_ok_inv mv : mv_ok mv = true -> is_missing (mv_dot mv) = true /\ is_missing (mv_qm mv) = true.
+Proof. unfold mv_ok. intros H. now apply andb_true_iff in H. Qed.
+
+(* the same column as the repaired code computes it: " " if v in _MISSING else v *)
+Lemma col1_code mv it : mv_ok mv = true -> missing_or plain1 it = true ->
+  exists v, get mv it = Ok v /\ (if is_missing v then " " else py_str v) = ljust 1 (tok_or "" it).
+Proof.
+  intros Hmv H. destruct (mv_ok_inv _ Hmv) as [Hd Hq].
+  destruct it as [| | |s]; cbn [missing_or] in H; try discriminate.
+  - exists (mv_dot mv). split; [reflexivity|]. rewrite Hd. reflexivity.
+  - exists (mv_qm mv). split; [reflexivity|]. rewrite Hq. reflexivity.
+  - apply plain1_inv in H as (L & _ & Hm). exists (Some s). split; [reflexivity|].
+    rewrite Hm. cbn [py_str tok_or]. symmetry. now apply ljust_exact.
+Qed.
+
+(* the name field as the repaired code computes it *)
+Lemma name_code nm el : String.length nm <= 4 ->
+  ljust 4 (if (if (String.length nm <? 4)%nat then (String.length el <? 2)%nat else false)
+           then " " ++ nm else nm) = pdb_name nm el.
+Proof.
+  intros L. unfold pdb_name.
+  destruct (String.length nm <? 4)%nat eqn:E4; cbn [andb]; [|reflexivity].
+  destruct (String.length el <? 2)%nat; [|reflexivity].
+  unfold ljust. cbn [append String.length Nat.sub]. reflexivity.
+Qed.
+
+Lemma rjust1_ljust1 s : String.length s = 1 -> rjust 1 s = ljust 1 s.
+Proof. intros H. now rewrite (rjust_exact 1 s H), (ljust_exact 1 s H). Qed.
 
 Tactic Notation "tok" hyp(H) ident(s) ident(Hs) :=
   let E := fresh "E" in destruct (tokp_inv _ _ H) as (s & E & Hs); rewrite E in *; clear E.
@@ -392,8 +432,8 @@ Lemma expressible_inv r k :
     vfacts 1 1 sasym /\ (vfacts 1 4 sseq /\ py_int sseq = Ok sq) /\
     (vfacts 1 8 sx /\ vfacts 1 8 sy /\ vfacts 1 8 sz) /\
     (vfacts 1 6 socc /\ vfacts 1 6 sb /\ vfacts 1 2 sts) /\
-    missing_or (okv 1 1) (label_alt_id r) = true /\
-    missing_or (okv 1 1) (pdbx_PDB_ins_code r) = true /\
+    missing_or plain1 (label_alt_id r) = true /\
+    missing_or plain1 (pdbx_PDB_ins_code r) = true /\
     missing_or noblank (pdbx_formal_charge r) = true.
 Proof.
   intros HE HK. pose proof (spec_kind_inv _ _ HK) as HG.
@@ -418,7 +458,34 @@ Proof.
   unfold vfacts. repeat split; auto; try (now apply okv_inv); eapply okv_inv; eauto.
 Qed.
 
-Ltac vf H N L1 L2 := destruct H as (N & L1 & L2).
+(* ---- a line made of the standard PDB pieces parses to the pieces --------------------- *)
+
+Lemma parse_std k sid snm sts calt a scomp sasym sseq cins ic sx sy sz socc sb c78 serial sq :
+  vfacts 1 5 sid -> py_int sid = Ok serial -> vfacts 1 4 snm -> vfacts 1 3 scomp -> vfacts 1 1 sasym ->
+  vfacts 1 4 sseq -> py_int sseq = Ok sq -> vfacts 1 8 sx -> vfacts 1 8 sy -> vfacts 1 8 sz ->
+  vfacts 1 6 socc -> vfacts 1 6 sb -> vfacts 1 2 sts ->
+  String.length calt = 1 -> strip calt = a -> String.length cins = 1 -> strip cins = ic ->
+  parse_atom k (cat [ljust 6 (kind_name k); rjust 5 sid; " "; pdb_name snm sts; calt; rjust 3 scomp; " ";
+                     ljust 1 sasym; rjust 4 sseq; cins; "   "; rjust 8 sx; rjust 8 sy; rjust 8 sz;
+                     rjust 6 socc; rjust 6 sb; "      "; "    "; rjust 2 sts; c78]) =
+  Ok {| f_kind := k; f_serial := serial; f_name := snm; f_alt := a; f_resname := scomp; f_chain := sasym;
+        f_resseq := sq; f_ins := ic; f_x := sx; f_y := sy; f_z := sz; f_occ := socc; f_tf := sb;
+        f_seg := ""; f_elem := sts; f_chg := strip (take 2 c78) |}.
+Proof.
+  intros (Nid & Lid1 & Lid2) Hserial (Nnm & Lnm1 & Lnm2) (Ncomp & Lcomp1 & Lcomp2) (Nasym & Lasym1 & Lasym2)
+         (Nseq & Lseq1 & Lseq2) Hsq (Nx & Lx1 & Lx2) (Ny & Ly1 & Ly2) (Nz & Lz1 & Lz2)
+         (Nocc & Locc1 & Locc2) (Nb & Lb1 & Lb2) (Nts & Lts1 & Lts2) LA SA LI SI.
+  pose proof (len_pdb_name snm sts Lnm2) as LN.
+  rewrite (parse_cols_full k _ _ _ _ _ _ _ _ _ _ _ _ _ _ serial sq); try lens.
+  - rewrite (strip_pdb_name _ _ Nnm), SA, SI, !strip_rjust, (strip_ljust 1 sasym Nasym) by assumption.
+    reflexivity.
+  - destruct k; reflexivity.
+  - destruct k; reflexivity.
+  - rewrite strip_rjust by assumption. exact Hserial.
+  - rewrite strip_rjust by assumption. exact Hsq.
+Qed.
+
+(* ---- the spec writer round-trips through the parser ----------------------------- *)
 
 Theorem spec_roundtrip : forall r k,
   expressible r = true -> spec_kind r = Some k ->
@@ -430,16 +497,13 @@ Proof.
   destruct (expressible_inv r k HE HK) as
     (sid & snm & scomp & sasym & sseq & sx & sy & sz & socc & sb & sts & serial & sq &
      (Eg & Eid & Enm & Ecomp & Easym & Eseq) & (Ex & Ey & Ez & Eocc & Eb & Ets) &
-     ((Nid & Lid1 & Lid2) & Hserial) & (Nnm & Lnm1 & Lnm2) & (Ncomp & Lcomp1 & Lcomp2) &
-     (Nasym & Lasym1 & Lasym2) & ((Nseq & Lseq1 & Lseq2) & Hsq) &
-     ((Nx & Lx1 & Lx2) & (Ny & Ly1 & Ly2) & (Nz & Lz1 & Lz2)) &
-     ((Nocc & Locc1 & Locc2) & (Nb & Lb1 & Lb2) & (Nts & Lts1 & Lts2)) & Halt & Hins & Hchg).
+     (Fid & Hserial) & Fnm & Fcomp & Fasym & (Fseq & Hsq) & (Fx & Fy & Fz) & (Focc & Fb & Fts) & Halt & Hins & Hchg).
   destruct r as [g rid ts lnm alt lcomp lasym ins x y z occ b chg seq acomp aasym anm mnum].
   projs. subst.
   destruct (col1 _ Halt) as [LA SA]. destruct (col1 _ Hins) as [LI SI].
   exists serial, sq. cbn [tok_or]. split; [exact Hserial|]. split; [exact Hsq|].
-  unfold pdb_line_of_row, fields_of_row. projs. cbn [tok_or].
-  pose proof (len_pdb_name snm sts Lnm2) as LN. pose proof (len_pdb_charge chg) as LC.
+  unfold pdb_line_of_row, fields_of_row, fields_of_row_chg. projs. cbn [tok_or].
+  pose proof (len_pdb_charge chg) as LC.
   match goal with |- parse_atom k ?L = _ =>
     replace L with (cat [ljust 6 (kind_name k); rjust 5 sid; " "; pdb_name snm sts; ljust 1 (tok_or "" alt);
                          rjust 3 scomp; " "; ljust 1 sasym; rjust 4 sseq; ljust 1 (tok_or "" ins); "   ";
@@ -447,21 +511,12 @@ Proof.
                          rjust 2 sts; pdb_charge chg])
       by (cbn [cat fold_right]; rewrite app_empty_r; reflexivity)
   end.
-  rewrite (parse_cols_full k _ _ _ _ _ _ _ _ _ _ _ _ _ _ serial sq); try lens.
-  - rewrite (strip_pdb_name _ _ Nnm), SA, SI, !strip_rjust, (strip_ljust 1 sasym Nasym) by assumption.
-    rewrite (take_all _ 2 LC). reflexivity.
-  - destruct k; reflexivity.
-  - exact LA.
-  - exact LI.
-  - destruct k; reflexivity.
-  - rewrite strip_rjust by assumption. exact Hserial.
-  - rewrite strip_rjust by assumption. exact Hsq.
+  rewrite (parse_std k sid snm sts _ (tok_or "" alt) scomp sasym sseq _ (tok_or "" ins) sx sy sz socc sb _ serial sq);
+    try assumption.
+  rewrite (take_all _ 2 LC). reflexivity.
 Qed.
 
-(* ---- the CIF path inside the guard ------------------------------------------------ *)
-
-Lemma missing_inv it : missing it = true -> it = Dot \/ it = Qm.
-Proof. destruct it; cbn; intros; try discriminate; auto. Qed.
+(* ---- the CIF path: every guarded row, every covered library convention ------------------ *)
 
 Lemma row_kind_tok mv k r : group_PDB r = Tok (kind_name k) -> row_kind mv r = Ok (Some k).
 Proof. intros H. unfold row_kind. rewrite H. destruct k; reflexivity. Qed.
@@ -469,146 +524,67 @@ Proof. intros H. unfold row_kind. rewrite H. destruct k; reflexivity. Qed.
 Lemma get_chg_ok mv chg : missing_or noblank chg = true -> exists v, get mv chg = Ok v.
 Proof. destruct chg; cbn; intros; try discriminate; eauto. Qed.
 
-Theorem cif_primary_partial : forall mv r k,
-  guard mv r = true -> spec_kind r = Some k ->
-  exists serial seq l f,
-    py_int (tok_or "" (id r)) = Ok serial /\ py_int (tok_or "" (auth_seq_id r)) = Ok seq /\
-    row_fields mv r = Ok (Some (l, f)) /\
-    primary f = primary (fields_of_row k serial seq r).
+Lemma guard_inv r : guard r = true ->
+  expressible r = true /\ item_eqb (label_atom_id r) (auth_atom_id r) = true /\
+  item_eqb (label_comp_id r) (auth_comp_id r) = true.
 Proof.
-  intros mv r k HG HK. unfold guard in HG.
-  apply andb_true_iff in HG as [HG Hlab]. apply andb_true_iff in HG as [HG Hwide].
-  apply andb_true_iff in HG as [HG Hnoins]. apply andb_true_iff in HG as [HG Hn3].
-  apply andb_true_iff in HG as [HG Hrec]. apply andb_true_iff in HG as [HE Hnoalt].
-  apply negb_true_iff in Hlab, Hwide, Hnoins, Hn3, Hrec, Hnoalt.
-  unfold c_label_ne_auth in Hlab. apply negb_false_iff in Hlab.
-  apply andb_true_iff in Hlab as [Hlab Hlab3]. apply andb_true_iff in Hlab as [Hlab1 Hlab2].
-  unfold c_wide in Hwide. apply negb_false_iff in Hwide.
-  apply andb_true_iff in Hwide as [Hwide Hw4]. apply andb_true_iff in Hwide as [Hwide Hw3].
-  apply andb_true_iff in Hwide as [Hw1 Hw2].
-  unfold c_inscode in Hnoins. apply negb_false_iff in Hnoins.
-  unfold c_name4 in Hn3. apply negb_false_iff in Hn3.
-  unfold c_altloc in Hnoalt. apply negb_false_iff in Hnoalt.
-  unfold c_alt_unrecognised in Hrec. rewrite Hnoalt in Hrec. cbn [andb] in Hrec.
-  destruct (expressible_inv r k HE HK) as
-    (sid & snm & scomp & sasym & sseq & sx & sy & sz & socc & sb & sts & serial & sq &
-     (Eg & Eid & Enm & Ecomp & Easym & Eseq) & (Ex & Ey & Ez & Eocc & Eb & Ets) &
-     ((Nid & Lid1 & Lid2) & Hserial) & (Nnm & Lnm1 & Lnm2) & (Ncomp & Lcomp1 & Lcomp2) &
-     (Nasym & Lasym1 & Lasym2) & ((Nseq & Lseq1 & Lseq2) & Hsq) &
-     ((Nx & Lx1 & Lx2) & (Ny & Ly1 & Ly2) & (Nz & Lz1 & Lz2)) &
-     ((Nocc & Locc1 & Locc2) & (Nb & Lb1 & Lb2) & (Nts & Lts1 & Lts2)) & Halt & Hins & Hchg).
-  pose proof (row_kind_tok mv k r Eg) as HRK.
-  destruct r as [g rid ts lnm alt lcomp lasym ins x y z occ b chg seq acomp aasym anm mnum].
-  projs. subst.
-  destruct (item_eqb_inv _ _ Hlab1) as (s1 & -> & E1). inversion E1; subst s1; clear E1.
-  destruct (item_eqb_inv _ _ Hlab2) as (s2 & -> & E2). inversion E2; subst s2; clear E2.
-  destruct (item_eqb_inv _ _ Hlab3) as (s3 & -> & E3). inversion E3; subst s3; clear E3.
-  cbn [tokp] in Hn3, Hw1, Hw2, Hw3, Hw4.
-  apply okv_inv in Hn3 as (_ & _ & Ln3). apply okv_inv in Hw1 as (_ & _ & Lx7).
-  apply okv_inv in Hw2 as (_ & _ & Ly7). apply okv_inv in Hw3 as (_ & _ & Lz7).
-  apply okv_inv in Hw4 as (_ & _ & Locc5).
-  destruct (get mv alt) as [valt|] eqn:Ealt; [|discriminate]. apply negb_false_iff in Hrec.
-  destruct (get_chg_ok mv chg Hchg) as [vch Ech].
-  exists serial, sq. cbn [tok_or].
-  unfold row_fields, row_line. rewrite HRK. cbn [bind].
-  unfold assemble. projs. cbn [get bind py_str ljust_v rjust_v].
-  rewrite Ealt. cbn [bind]. rewrite Hrec. rewrite Ech. cbn [bind].
-  rewrite (rjust_S 7 sx Lx7), (rjust_S 7 sy Ly7), (rjust_S 7 sz Lz7), (rjust_S 5 socc Locc5).
-  set (l0 := match k with KATOM => ljust 6 (kind_name k) | KHETATM => kind_name k end).
-  set (rest := rjust 5 socc ++ rjust 6 sb ++ "          " ++ rjust 2 sts ++ (if eq_lit vch "?" then "  " else "")).
-  match goal with |- context [parse_atom k ?L] =>
-    assert (HL : L = cat [l0; rjust 5 sid; " "; " " ++ ljust 3 snm; " "; rjust 3 scomp; " "; rjust 1 sasym;
-                          rjust 4 sseq; " "; "   "; rjust 7 sx ++ " "; rjust 7 sy ++ " "; rjust 7 sz ++ " "; rest])
-  end.
-  { unfold rest. cbn [cat fold_right]. destruct (eq_lit vch "?");
-      rewrite ?app_assoc_s; cbn [append]; rewrite ?app_empty_r; reflexivity. }
-  rewrite HL. clear HL.
-  assert (Hl0 : String.length l0 = 6 /\ strip l0 = kind_name k) by (unfold l0; destruct k; split; reflexivity).
-  destruct Hl0 as [Ll0 Sl0].
-  destruct (parse_cols_primary k l0 (rjust 5 sid) " " (" " ++ ljust 3 snm) " " (rjust 3 scomp) " " (rjust 1 sasym)
-              (rjust 4 sseq) " " "   " (rjust 7 sx ++ " ") (rjust 7 sy ++ " ") (rjust 7 sz ++ " ") serial sq)
-    with (rest := rest) as (f & Hf & Hp); try lens; try assumption.
-  - rewrite strip_rjust by assumption. exact Hserial.
-  - rewrite strip_rjust by assumption. exact Hsq.
-  - eexists. exists f. rewrite Hf. cbn [bind]. split; [exact Hserial|]. split; [exact Hsq|].
-    split; [reflexivity|].
-    rewrite Hp. unfold primary_of_cols, primary, fields_of_row. projs. cbn [f_kind f_serial f_name f_alt f_resname f_chain f_resseq f_ins f_x f_y f_z tok_or].
-    rewrite (strip_sp_ljust 3 snm Nnm), !strip_rjust, !strip_rjust_sp, strip_sp by assumption.
-    destruct (missing_inv _ Hnoalt) as [-> | ->]; destruct (missing_inv _ Hnoins) as [-> | ->]; reflexivity.
+  unfold guard, c_label_ne_auth. intros H. apply andb_true_iff in H as [HE H].
+  apply negb_true_iff, negb_false_iff in H. apply andb_true_iff in H as [H1 H2]. auto.
 Qed.
 
-Lemma strip_app_sp s : noblank s = true -> strip (s ++ " ") = s.
-Proof. intros H. exact (strip_pad 0 1 s H). Qed.
+Lemma tail_chg (v : option string) :
+  strip (take 2 (if eq_lit v "?" then "  " else "")) = "".
+Proof. destruct (eq_lit v "?"); reflexivity. Qed.
 
-(* all sixteen parsed fields, when the trailing columns are narrow enough too *)
-Theorem cif_full_partial : forall mv r k,
-  guard mv r = true -> guard_trailing mv r = true -> spec_kind r = Some k ->
+(* the repaired reader returns the atom the row denotes, with blank columns 79-80 *)
+Theorem cif_reads_row : forall mv r k,
+  mv_ok mv = true -> guard r = true -> spec_kind r = Some k ->
   exists serial seq l,
     py_int (tok_or "" (id r)) = Ok serial /\ py_int (tok_or "" (auth_seq_id r)) = Ok seq /\
-    row_fields mv r = Ok (Some (l, fields_of_row k serial seq r)).
+    row_fields mv r = Ok (Some (l, fields_of_row_chg k serial seq r "")).
 Proof.
-  intros mv r k HG HT HK. unfold guard in HG.
-  apply andb_true_iff in HG as [HG Hlab]. apply andb_true_iff in HG as [HG Hwide].
-  apply andb_true_iff in HG as [HG Hnoins]. apply andb_true_iff in HG as [HG Hn3].
-  apply andb_true_iff in HG as [HG Hrec]. apply andb_true_iff in HG as [HE Hnoalt].
-  apply negb_true_iff in Hlab, Hwide, Hnoins, Hn3, Hrec, Hnoalt.
-  unfold c_label_ne_auth in Hlab. apply negb_false_iff in Hlab.
-  apply andb_true_iff in Hlab as [Hlab Hlab3]. apply andb_true_iff in Hlab as [Hlab1 Hlab2].
-  unfold c_wide in Hwide. apply negb_false_iff in Hwide.
-  apply andb_true_iff in Hwide as [Hwide Hw4]. apply andb_true_iff in Hwide as [Hwide Hw3].
-  apply andb_true_iff in Hwide as [Hw1 Hw2].
-  unfold c_inscode in Hnoins. apply negb_false_iff in Hnoins.
-  unfold c_name4 in Hn3. apply negb_false_iff in Hn3.
-  unfold c_altloc in Hnoalt. apply negb_false_iff in Hnoalt.
-  unfold c_alt_unrecognised in Hrec. rewrite Hnoalt in Hrec. cbn [andb] in Hrec.
-  unfold guard_trailing in HT. apply andb_true_iff in HT as [HT Ht3]. apply andb_true_iff in HT as [Ht1 Ht2].
+  intros mv r k Hmv HG HK. destruct (guard_inv r HG) as (HE & Hlab1 & Hlab2).
   destruct (expressible_inv r k HE HK) as
     (sid & snm & scomp & sasym & sseq & sx & sy & sz & socc & sb & sts & serial & sq &
      (Eg & Eid & Enm & Ecomp & Easym & Eseq) & (Ex & Ey & Ez & Eocc & Eb & Ets) &
-     ((Nid & Lid1 & Lid2) & Hserial) & (Nnm & Lnm1 & Lnm2) & (Ncomp & Lcomp1 & Lcomp2) &
-     (Nasym & Lasym1 & Lasym2) & ((Nseq & Lseq1 & Lseq2) & Hsq) &
-     ((Nx & Lx1 & Lx2) & (Ny & Ly1 & Ly2) & (Nz & Lz1 & Lz2)) &
-     ((Nocc & Locc1 & Locc2) & (Nb & Lb1 & Lb2) & (Nts & Lts1 & Lts2)) & Halt & Hins & Hchg).
+     (Fid & Hserial) & Fnm & Fcomp & Fasym & (Fseq & Hsq) & (Fx & Fy & Fz) & (Focc & Fb & Fts) & Halt & Hins & Hchg).
   pose proof (row_kind_tok mv k r Eg) as HRK.
   destruct r as [g rid ts lnm alt lcomp lasym ins x y z occ b chg seq acomp aasym anm mnum].
   projs. subst.
   destruct (item_eqb_inv _ _ Hlab1) as (s1 & -> & E1). inversion E1; subst s1; clear E1.
   destruct (item_eqb_inv _ _ Hlab2) as (s2 & -> & E2). inversion E2; subst s2; clear E2.
-  destruct (item_eqb_inv _ _ Hlab3) as (s3 & -> & E3). inversion E3; subst s3; clear E3.
-  cbn [tokp] in Hn3, Hw1, Hw2, Hw3, Hw4, Ht1, Ht2.
-  apply okv_inv in Hn3 as (_ & _ & Ln3). apply okv_inv in Hw1 as (_ & _ & Lx7).
-  apply okv_inv in Hw2 as (_ & _ & Ly7). apply okv_inv in Hw3 as (_ & _ & Lz7).
-  apply okv_inv in Hw4 as (_ & _ & Locc5).
-  apply okv_inv in Ht1 as (_ & _ & Lb5). apply okv_inv in Ht2 as (_ & _ & Lts1').
-  destruct (get mv alt) as [valt|] eqn:Ealt; [|discriminate]. apply negb_false_iff in Hrec.
-  assert (Hc : exists vch, get mv chg = Ok vch /\ eq_lit vch "?" = true /\ pdb_charge chg = "  ").
-  { destruct chg; cbn [get] in Ht3; try discriminate.
-    - exists (mv_dot mv). auto.
-    - exists (mv_qm mv). auto. }
-  destruct Hc as (vch & Ech & Hq & Hpc).
+  destruct (col1 _ Halt) as [LA SA]. destruct (col1 _ Hins) as [LI SI].
+  destruct (col1_code mv alt Hmv Halt) as (valt & Ealt & Calt).
+  destruct (col1_code mv ins Hmv Hins) as (vins & Eins & Cins).
+  destruct (get_chg_ok mv chg Hchg) as [vch Ech].
+  pose proof Fnm as (_ & _ & Lnm4). pose proof Fasym as (_ & La1 & La2).
   exists serial, sq. cbn [tok_or].
   unfold row_fields, row_line. rewrite HRK. cbn [bind].
-  unfold assemble. projs. cbn [get bind py_str ljust_v rjust_v].
-  rewrite Ealt. cbn [bind]. rewrite Hrec. rewrite Ech. cbn [bind]. rewrite Hq.
-  rewrite (rjust_S 7 sx Lx7), (rjust_S 7 sy Ly7), (rjust_S 7 sz Lz7), (rjust_S 5 socc Locc5),
-          (rjust_S 5 sb Lb5), (rjust_S 1 sts Lts1'), (rjust_exact 1 sts) by lia.
+  unfold assemble. projs. cbn [get bind py_str ljust_v rjust_v need_str].
+  rewrite Ealt. cbn [bind]. rewrite Eins. cbn [bind]. rewrite Ech. cbn [bind].
+  rewrite Calt, Cins.
+  pose proof (name_code snm sts Lnm4) as Hname.
+  eexists. split; [exact Hserial|]. split; [exact Hsq|].
+  assert (La : String.length sasym = 1) by lia.
+  rewrite (rjust1_ljust1 sasym La).
   set (l0 := match k with KATOM => ljust 6 (kind_name k) | KHETATM => kind_name k end).
+  assert (Hl0 : l0 = ljust 6 (kind_name k)) by (unfold l0; destruct k; reflexivity).
+  rewrite Hl0. clear Hl0 l0.
+  set (tailc := if eq_lit vch "?" then "  " else "").
+  assert (HP : (if (String.length snm <? 4)%nat then @Ok bool (String.length sts <? 2)%nat else Ok false)
+               = Ok (if (String.length snm <? 4)%nat then (String.length sts <? 2)%nat else false))
+    by (destruct (String.length snm <? 4)%nat; reflexivity).
+  rewrite HP. clear HP. cbn [bind]. rewrite Hname.
   match goal with |- context [parse_atom k ?L] =>
-    assert (HL : L = cat [l0; rjust 5 sid; " "; " " ++ ljust 3 snm; " "; rjust 3 scomp; " "; rjust 1 sasym;
-                          rjust 4 sseq; " "; "   "; rjust 7 sx ++ " "; rjust 7 sy ++ " "; rjust 7 sz ++ " ";
-                          rjust 5 socc ++ " "; rjust 5 sb ++ " "; "      "; "    "; sts ++ " "; " "])
-  end.
-  { cbn [cat fold_right]. rewrite ?app_assoc_s; cbn [append]; rewrite ?app_empty_r; reflexivity. }
-  rewrite HL. clear HL.
-  assert (Hl0 : String.length l0 = 6 /\ strip l0 = kind_name k) by (unfold l0; destruct k; split; reflexivity).
-  destruct Hl0 as [Ll0 Sl0].
-  rewrite (parse_cols_full k _ _ _ _ _ _ _ _ _ _ _ _ _ _ serial sq); try lens; try assumption.
-  - cbn [bind]. eexists. split; [exact Hserial|]. split; [exact Hsq|].
-    unfold fields_of_row. projs. cbn [tok_or]. rewrite Hpc.
-    rewrite (strip_sp_ljust 3 snm Nnm), !strip_rjust, !strip_rjust_sp, (strip_app_sp sts Nts), strip_sp by assumption.
-    destruct (missing_inv _ Hnoalt) as [-> | ->]; destruct (missing_inv _ Hnoins) as [-> | ->]; reflexivity.
-  - rewrite strip_rjust by assumption. exact Hserial.
-  - rewrite strip_rjust by assumption. exact Hsq.
+    assert (HL : L = cat [ljust 6 (kind_name k); rjust 5 sid; " "; pdb_name snm sts; ljust 1 (tok_or "" alt);
+                          rjust 3 scomp; " "; ljust 1 sasym; rjust 4 sseq; ljust 1 (tok_or "" ins); "   ";
+                          rjust 8 sx; rjust 8 sy; rjust 8 sz; rjust 6 socc; rjust 6 sb; "      "; "    ";
+                          rjust 2 sts; tailc])
+      by (unfold tailc; cbn [cat fold_right]; destruct (eq_lit vch "?");
+          rewrite ?app_assoc_s; cbn [append]; rewrite ?app_empty_r; reflexivity)
+  end; rewrite HL; clear HL.
+  rewrite (parse_std k sid snm sts _ (tok_or "" alt) scomp sasym sseq _ (tok_or "" ins) sx sy sz socc sb tailc serial sq);
+    try assumption; cbn [bind]; unfold tailc; rewrite tail_chg; reflexivity.
 Qed.
 
 (* ---- the property on one row ------------------------------------------------------ *)
@@ -641,8 +617,8 @@ Proof.
     now apply primary_eqb_eq.
 Qed.
 
-Lemma guard_expressible mv r : guard mv r = true -> expressible r = true.
-Proof. unfold guard. intros H. do 6 (apply andb_true_iff in H; destruct H as [H _]). exact H. Qed.
+Lemma guard_expressible r : guard r = true -> expressible r = true.
+Proof. intros H. now destruct (guard_inv r H). Qed.
 
 Lemma expressible_kind r : expressible r = true -> exists k, spec_kind r = Some k.
 Proof.
@@ -655,149 +631,77 @@ Proof. congruence. Qed.
 
 (* mmCIF = PDB on the guarded rows: same atom, and it is the atom the row denotes *)
 Theorem cif_eq_pdb_partial : forall mv r,
-  guard mv r = true ->
+  mv_ok mv = true -> guard r = true ->
   exists k serial seq l f,
     spec_kind r = Some k /\
     row_fields mv r = Ok (Some (l, f)) /\
     parse_atom k (pdb_line_of_row r) = Ok (fields_of_row k serial seq r) /\
     primary f = primary (fields_of_row k serial seq r).
 Proof.
-  intros mv r HG. pose proof (guard_expressible _ _ HG) as HE.
+  intros mv r Hmv HG. pose proof (guard_expressible _ HG) as HE.
   destruct (expressible_kind _ HE) as [k HK].
-  destruct (cif_primary_partial mv r k HG HK) as (serial & seq & l & f & H1 & H2 & H3 & H4).
+  destruct (cif_reads_row mv r k Hmv HG HK) as (serial & seq & l & H1 & H2 & H3).
   destruct (spec_roundtrip r k HE HK) as (serial' & seq' & H1' & H2' & H3').
   rewrite H1 in H1'. rewrite H2 in H2'. apply Ok_inj in H1', H2'. subst serial' seq'.
-  exists k, serial, seq, l, f. auto.
+  exists k, serial, seq, l, (fields_of_row_chg k serial seq r ""). auto.
 Qed.
 
-Corollary guard_agrees mv r : guard mv r = true -> agrees mv r.
+(* all sixteen parsed fields whenever the PDB record has blank charge columns *)
+Theorem cif_full_partial : forall mv r k,
+  mv_ok mv = true -> guard r = true -> charge_blank r = true -> spec_kind r = Some k ->
+  exists serial seq l,
+    py_int (tok_or "" (id r)) = Ok serial /\ py_int (tok_or "" (auth_seq_id r)) = Ok seq /\
+    row_fields mv r = Ok (Some (l, fields_of_row k serial seq r)).
 Proof.
-  intros HG. destruct (cif_eq_pdb_partial mv r HG) as (k & serial & seq & l & f & H1 & H2 & H3 & H4).
+  intros mv r k Hmv HG HC HK.
+  destruct (cif_reads_row mv r k Hmv HG HK) as (serial & seq & l & H1 & H2 & H3).
+  exists serial, seq, l. split; [exact H1|]. split; [exact H2|].
+  unfold fields_of_row. unfold charge_blank in HC. apply String.eqb_eq in HC. rewrite HC. exact H3.
+Qed.
+
+Corollary guard_agrees mv r : mv_ok mv = true -> guard r = true -> agrees mv r.
+Proof.
+  intros Hmv HG. destruct (cif_eq_pdb_partial mv r Hmv HG) as (k & serial & seq & l & f & H1 & H2 & H3 & H4).
   exists k, l, f, (fields_of_row k serial seq r). auto.
 Qed.
 
-(* with the installed library no row without an alternate location is inside the guard *)
-Theorem guard_installed_empty : forall r, guard mv_installed r = false.
-Proof.
-  intros r. unfold guard, c_altloc, c_alt_unrecognised.
-  destruct (label_alt_id r); cbn; rewrite ?andb_false_r; reflexivity.
-Qed.
+Lemma mv_ok_installed : mv_ok mv_installed = true.
+Proof. reflexivity. Qed.
+Lemma mv_ok_legacy : mv_ok mv_legacy = true.
+Proof. reflexivity. Qed.
 
-(* ... and every ordinary such row comes out with an empty chain identifier *)
-Theorem installed_every_row : forall r,
-  expressible r = true -> c_altloc r = false -> c_name4 r = false -> c_label_ne_auth r = false ->
-  tokp (okv 1 3) (auth_seq_id r) = true ->
-  (forall l f, row_fields mv_installed r = Ok (Some (l, f)) ->
-     f_chain f = "" /\ f_chain f <> tok_or "" (auth_asym_id r))
-  /\ ~ agrees mv_installed r.
-Proof.
-  intros r HE Hnoalt Hn3 Hlab Hseq3.
-  destruct (expressible_kind _ HE) as [k HK].
-  assert (Main : forall l f, row_fields mv_installed r = Ok (Some (l, f)) ->
-     f_chain f = "" /\ f_chain f <> tok_or "" (auth_asym_id r)).
-  { apply negb_false_iff in Hlab, Hn3, Hnoalt.
-    apply andb_true_iff in Hlab as [Hlab Hlab3]. apply andb_true_iff in Hlab as [Hlab1 Hlab2].
-    destruct (expressible_inv r k HE HK) as
-      (sid & snm & scomp & sasym & sseq & sx & sy & sz & socc & sb & sts & serial & sq &
-       (Eg & Eid & Enm & Ecomp & Easym & Eseq) & (Ex & Ey & Ez & Eocc & Eb & Ets) &
-       ((Nid & Lid1 & Lid2) & Hserial) & (Nnm & Lnm1 & Lnm2) & (Ncomp & Lcomp1 & Lcomp2) &
-       (Nasym & Lasym1 & Lasym2) & ((Nseq & Lseq1 & Lseq2) & Hsq) &
-       ((Nx & Lx1 & Lx2) & (Ny & Ly1 & Ly2) & (Nz & Lz1 & Lz2)) &
-       ((Nocc & Locc1 & Locc2) & (Nb & Lb1 & Lb2) & (Nts & Lts1 & Lts2)) & Halt & Hins & Hchg).
-    pose proof (row_kind_tok mv_installed k r Eg) as HRK.
-    destruct r as [g rid ts lnm alt lcomp lasym ins x y z occ b chg seq acomp aasym anm mnum].
-    projs. subst.
-    destruct (item_eqb_inv _ _ Hlab1) as (s1 & -> & E1). inversion E1; subst s1; clear E1.
-    destruct (item_eqb_inv _ _ Hlab2) as (s2 & -> & E2). inversion E2; subst s2; clear E2.
-    destruct (item_eqb_inv _ _ Hlab3) as (s3 & -> & E3). inversion E3; subst s3; clear E3.
-    cbn [tokp] in Hn3, Hseq3.
-    apply okv_inv in Hn3 as (_ & _ & Ln3). apply okv_inv in Hseq3 as (_ & _ & Lseq3).
-    destruct (get_chg_ok mv_installed chg Hchg) as [vch Ech].
-    assert (Ealt : exists valt, get mv_installed alt = Ok valt /\ eq_lit valt "." = false)
-      by (destruct (missing_inv _ Hnoalt) as [-> | ->]; eexists; split; reflexivity).
-    destruct Ealt as (valt & Ealt & Hne).
-    intros l f. cbn [tok_or].
-    unfold row_fields, row_line. rewrite HRK. cbn [bind].
-    unfold assemble. projs. cbn [get bind py_str ljust_v rjust_v].
-    rewrite Ealt. cbn [bind]. rewrite Hne. rewrite Ech. cbn [bind].
-    rewrite (rjust_S 3 sseq Lseq3).
-    set (l0 := match k with KATOM => ljust 6 (kind_name k) | KHETATM => kind_name k end).
-    assert (Ll0 : String.length l0 = 6) by (unfold l0; destruct k; reflexivity).
-    match goal with |- context [parse_atom k ?L] => set (LINE := L) end.
-    assert (HC : char_at 21 LINE = Ok " ").
-    { set (rest := rjust 3 sseq ++ "   " ++ rjust 8 sx ++ rjust 8 sy ++ rjust 8 sz ++ rjust 6 socc ++ rjust 6 sb
-                   ++ "          " ++ rjust 2 sts ++ (if eq_lit vch "?" then "  " else "")).
-      assert (HL : LINE = cat [l0; rjust 5 sid; "  "; ljust 3 snm; rjust 3 scomp; " "; rjust 1 sasym; " "; rest]).
-      { unfold LINE, rest. cbn [cat fold_right]. destruct (eq_lit vch "?");
-          rewrite ?app_assoc_s; rewrite ?app_empty_r; reflexivity. }
-      rewrite HL.
-      rewrite (char_at_cat _ 7 21) by lens. reflexivity. }
-    destruct (parse_atom k LINE) as [f0|e] eqn:HP; cbn [bind]; [|discriminate].
-    intros H. inversion H; subst f0.
-    rewrite (parse_atom_chain k LINE f " " HP HC). split; [reflexivity|].
-    cbn. destruct sasym; [cbn in Lasym1; lia|discriminate]. }
-  split; [exact Main|].
-  intros (k' & l & f & fs & Hk & Hr & Hp & He).
-  rewrite HK in Hk. inversion Hk; subst k'.
-  destruct (spec_roundtrip r k HE HK) as (serial & seq & _ & _ & Hs).
-  rewrite Hs in Hp. apply Ok_inj in Hp. subst fs.
-  destruct (Main l f Hr) as [Hc1 Hc2]. apply Hc2.
-  unfold primary in He. inversion He. cbn [fields_of_row f_chain]. reflexivity.
-Qed.
-
-(* ---- refutations of the unguarded statement (witnesses; replayed on the real code) -- *)
+(* ---- what is still refuted (witnesses; replayed on the real code) ---------------------- *)
 
 Lemma not_agrees mv r : agreesb mv r = false -> ~ agrees mv r.
 Proof. intros H A. apply agrees_iff in A. congruence. Qed.
 
-(* classes = [altloc; alt-unrecognised; name4; inscode; wide; label<>auth] *)
-Theorem altloc_refuted : exists r,
-  expressible r = true /\ classes mv_legacy r = [true; false; false; false; false; false] /\
-  ~ agrees mv_legacy r.
-Proof. exists w_alt. split; [reflexivity|]. split; [reflexivity|]. apply not_agrees. vm_compute. reflexivity. Qed.
-
-Theorem name4_refuted : exists r,
-  expressible r = true /\ classes mv_legacy r = [false; false; true; false; false; false] /\
-  ~ agrees mv_legacy r.
-Proof. exists w_name4. split; [reflexivity|]. split; [reflexivity|]. apply not_agrees. vm_compute. reflexivity. Qed.
-
-Theorem inscode_refuted : exists r,
-  expressible r = true /\ classes mv_legacy r = [false; false; false; true; false; false] /\
-  ~ agrees mv_legacy r.
-Proof. exists w_ins. split; [reflexivity|]. split; [reflexivity|]. apply not_agrees. vm_compute. reflexivity. Qed.
-
-(* an 8-character coordinate loses its first character (here the sign), silently *)
-Theorem widecoord_refuted : exists r l f,
-  expressible r = true /\ classes mv_legacy r = [false; false; false; false; true; false] /\
-  ~ agrees mv_legacy r /\
-  Cartn_x r = Tok "-100.123" /\ row_fields mv_legacy r = Ok (Some (l, f)) /\ f_x f = "100.123".
+(* residue name still read from label_comp_id *)
+Theorem label_comp_refuted : exists r l f,
+  expressible r = true /\ c_label_ne_auth r = true /\
+  ~ agrees mv_installed r /\ ~ agrees mv_legacy r /\
+  auth_comp_id r = Tok "HOH" /\ row_fields mv_installed r = Ok (Some (l, f)) /\ f_resname f = "WAT".
 Proof.
-  exists w_wide. eexists. eexists. split; [reflexivity|]. split; [reflexivity|].
-  split; [apply not_agrees; vm_compute; reflexivity|]. split; [reflexivity|].
-  split; [vm_compute; reflexivity|]. reflexivity.
+  exists w_comp. eexists. eexists. split; [reflexivity|]. split; [reflexivity|].
+  split; [apply not_agrees; vm_compute; reflexivity|]. split; [apply not_agrees; vm_compute; reflexivity|].
+  split; [reflexivity|]. split; [vm_compute; reflexivity|]. reflexivity.
 Qed.
 
-(* a 6-character occupancy runs into the z column *)
-Theorem wideocc_refuted : exists r l f,
-  expressible r = true /\ classes mv_legacy r = [false; false; false; false; true; false] /\
-  ~ agrees mv_legacy r /\
-  Cartn_z r = Tok "2.104" /\ row_fields mv_legacy r = Ok (Some (l, f)) /\ f_z f = "2.1041".
+(* atom name still read from label_atom_id *)
+Theorem label_atom_refuted : exists r l f,
+  expressible r = true /\ c_label_ne_auth r = true /\
+  ~ agrees mv_installed r /\ ~ agrees mv_legacy r /\
+  auth_atom_id r = Tok "CA1" /\ row_fields mv_installed r = Ok (Some (l, f)) /\ f_name f = "CA".
 Proof.
-  exists w_occ. eexists. eexists. split; [reflexivity|]. split; [reflexivity|].
-  split; [apply not_agrees; vm_compute; reflexivity|]. split; [reflexivity|].
-  split; [vm_compute; reflexivity|]. reflexivity.
+  exists w_atomname. eexists. eexists. split; [reflexivity|]. split; [reflexivity|].
+  split; [apply not_agrees; vm_compute; reflexivity|]. split; [apply not_agrees; vm_compute; reflexivity|].
+  split; [reflexivity|]. split; [vm_compute; reflexivity|]. reflexivity.
 Qed.
-
-Theorem label_auth_refuted : exists r,
-  expressible r = true /\ classes mv_legacy r = [false; false; false; false; false; true] /\
-  ~ agrees mv_legacy r.
-Proof. exists w_label. split; [reflexivity|]. split; [reflexivity|]. apply not_agrees. vm_compute. reflexivity. Qed.
 
 (* formal charge: the atom is the same in the fields the property names, but the
    charge column is never written *)
 Theorem formal_charge_refuted : exists r k l f fs,
-  guard mv_legacy r = true /\ pdbx_formal_charge r = Tok "1" /\
-  spec_kind r = Some k /\ row_fields mv_legacy r = Ok (Some (l, f)) /\
+  guard r = true /\ pdbx_formal_charge r = Tok "1" /\
+  spec_kind r = Some k /\ row_fields mv_installed r = Ok (Some (l, f)) /\
   parse_atom k (pdb_line_of_row r) = Ok fs /\
   primary f = primary fs /\ f_chg fs = "1+" /\ f_chg f = "".
 Proof.
@@ -807,28 +711,21 @@ Proof.
   split; [reflexivity|]. split; reflexivity.
 Qed.
 
-(* the installed library: an ordinary row (inside the guard for the legacy
-   convention) comes out with residue, chain and x coordinate wrong *)
-Theorem installed_refuted : exists r l f,
-  guard mv_legacy r = true /\ classes mv_installed r = [false; true; false; false; false; false] /\
-  ~ agrees mv_installed r /\
-  row_fields mv_installed r = Ok (Some (l, f)) /\
-  (label_comp_id r = Tok "LYS" /\ f_alt f = "L" /\ f_resname f = "YS") /\
-  (auth_asym_id r = Tok "A" /\ f_chain f = "") /\
-  (Cartn_x r = Tok "-10.123" /\ f_x f = "10.123").
-Proof.
-  exists w_plain. eexists. eexists. split; [reflexivity|]. split; [reflexivity|].
-  split; [apply not_agrees; vm_compute; reflexivity|].
-  split; [vm_compute; reflexivity|]. repeat split; reflexivity.
-Qed.
-
-(* non-vacuity: the guard is inhabited by an ordinary row (legacy convention) and
-   both readers return its atom *)
+(* regression: the witnesses of the repaired classes (no alt-loc with the installed library,
+   alt-loc, 4-character name, insertion code, 8-character coordinate, 6-character occupancy,
+   label_asym_id <> auth_asym_id, formal charge) are inside the guard and agree, under both
+   conventions; and the line is now the PDB record itself up to columns 79-80 *)
 Example guard_nonvacuous :
-  guard mv_legacy w_plain = true /\ guard_trailing mv_legacy w_plain = true /\
-  agreesb mv_legacy w_plain = true /\
-  exists l, row_fields mv_legacy w_plain = Ok (Some (l, fields_of_row KATOM 7 12 w_plain)).
-Proof. split; [reflexivity|]. split; [reflexivity|]. split; [reflexivity|]. eexists. vm_compute. reflexivity. Qed.
+  forallb guard fixed_witnesses = true /\
+  forallb (agreesb mv_installed) fixed_witnesses = true /\
+  forallb (agreesb mv_legacy) fixed_witnesses = true /\
+  (exists l, row_fields mv_installed w_name4 = Ok (Some (l, fields_of_row KATOM 7 12 w_name4))) /\
+  (exists l, row_fields mv_installed w_wide = Ok (Some (l, fields_of_row KATOM 7 12 w_wide))
+             /\ f_x (fields_of_row KATOM 7 12 w_wide) = "-100.123").
+Proof.
+  split; [vm_compute; reflexivity|]. split; [vm_compute; reflexivity|]. split; [vm_compute; reflexivity|].
+  split; eexists; [vm_compute; reflexivity|]. split; [vm_compute; reflexivity|reflexivity].
+Qed.
 
 (* ---- whole atom_site(block): one record per selected row, in order ------------------ *)
 
@@ -845,21 +742,21 @@ Definition selb (sel : option pyval) (r : row) : bool :=
   | Some j => match pdbx_PDB_model_num r with Tok m => pyval_eqb (Some m) j | _ => false end
   end.
 
-Definition rows_good (mv : mvconv) (rows : list row) : Prop :=
-  forall r, In r rows -> guard mv r = true /\
+Definition rows_good (rows : list row) : Prop :=
+  forall r, In r rows -> guard r = true /\
     exists m n, pdbx_PDB_model_num r = Tok m /\ okv 1 4 m = true /\ py_int m = Ok n.
 
 Lemma rows_loop_guard mv sel rows :
-  rows_good mv rows ->
+  mv_ok mv = true -> rows_good rows ->
   forall acc, exists recs,
     rows_loop mv sel rows acc = ((acc ++ recs)%list, None) /\
     Forall2 (row_ok mv) (filter (selb sel) rows) recs.
 Proof.
-  induction rows as [|r t IH]; intros HG acc.
+  intros Hmv. induction rows as [|r t IH]; intros HG acc.
   - exists []. cbn. rewrite app_nil_r. split; [reflexivity|constructor].
-  - assert (HGt : rows_good mv t) by (intros r' Hr'; apply HG; now right).
+  - assert (HGt : rows_good t) by (intros r' Hr'; apply HG; now right).
     destruct (HG r (or_introl eq_refl)) as (Hg & m & n & Em & _ & _).
-    destruct (cif_eq_pdb_partial mv r Hg) as (k & serial & seq & l & f & H1 & H2 & H3 & H4).
+    destruct (cif_eq_pdb_partial mv r Hmv Hg) as (k & serial & seq & l & f & H1 & H2 & H3 & H4).
     assert (Hok : row_ok mv r (RAtom l f)) by (exists k, serial, seq, l, f; auto).
     cbn [rows_loop filter]. unfold selb at 1. rewrite Em.
     destruct sel as [j|].
@@ -888,19 +785,18 @@ Qed.
 
 (* one model: every row yields its atom, in file order, nothing skipped, no exception *)
 Theorem atom_site_single_partial : forall mv rows m,
-  rows <> [] ->
-  (forall r, In r rows -> guard mv r = true /\ pdbx_PDB_model_num r = Tok m) ->
+  mv_ok mv = true -> rows <> [] ->
+  (forall r, In r rows -> guard r = true /\ pdbx_PDB_model_num r = Tok m) ->
   exists recs, atom_site mv rows = mkout recs [] None /\ Forall2 (row_ok mv) rows recs.
 Proof.
-  intros mv rows m Hne H. unfold atom_site.
+  intros mv rows m Hmv Hne H. unfold atom_site.
   rewrite (count_models_same mv m rows []) by (auto; intros; now apply H).
   destruct rows as [|r0 t]; [congruence|]. cbn [List.length Nat.eqb].
-  (* rows_loop with no model filter needs only the guard *)
-  assert (Hloop : forall rows acc, (forall r, In r rows -> guard mv r = true) ->
+  assert (Hloop : forall rows acc, (forall r, In r rows -> guard r = true) ->
             exists recs, rows_loop mv None rows acc = ((acc ++ recs)%list, None) /\ Forall2 (row_ok mv) rows recs).
   { induction rows as [|r t' IH]; intros acc HG.
     - exists []. cbn. rewrite app_nil_r. split; [reflexivity|constructor].
-    - destruct (cif_eq_pdb_partial mv r (HG r (or_introl eq_refl))) as (k & serial & seq & l & f & H1 & H2 & H3 & H4).
+    - destruct (cif_eq_pdb_partial mv r Hmv (HG r (or_introl eq_refl))) as (k & serial & seq & l & f & H1 & H2 & H3 & H4).
       cbn [rows_loop]. rewrite H2.
       destruct (IH (acc ++ [RAtom l f])%list) as (recs & E & F); [intros; apply HG; now right|].
       exists (RAtom l f :: recs). rewrite E, <- app_assoc. split; [reflexivity|].
@@ -927,17 +823,17 @@ Definition block_ok (mv : mvconv) (rows : list row) (j : pyval) (blk : list reco
     Forall2 (row_ok mv) (filter (selb (Some j)) rows) recs.
 
 Lemma models_loop_guard mv rows models :
-  rows_good mv rows ->
+  mv_ok mv = true -> rows_good rows ->
   (forall j, In j models -> exists m n, j = Some m /\ okv 1 4 m = true /\ py_int m = Ok n) ->
   forall acc, exists blocks,
     models_loop mv models rows acc [] = mkout (acc ++ concat blocks)%list [] None /\
     Forall2 (block_ok mv rows) models blocks.
 Proof.
-  intros HG. induction models as [|j t IH]; intros HM acc.
+  intros Hmv HG. induction models as [|j t IH]; intros HM acc.
   - exists []. cbn. rewrite app_nil_r. split; [reflexivity|constructor].
   - destruct (HM j (or_introl eq_refl)) as (m & n & -> & Hm & Hn).
     cbn [models_loop]. rewrite (model_line_int m n Hm Hn).
-    destruct (rows_loop_guard mv (Some (Some m)) rows HG (acc ++ [RModel (model_line (Some m)) n])%list)
+    destruct (rows_loop_guard mv (Some (Some m)) rows Hmv HG (acc ++ [RModel (model_line (Some m)) n])%list)
       as (recs & E & F).
     rewrite E.
     destruct (IH (fun j' Hj' => HM j' (or_intror Hj'))
@@ -967,25 +863,18 @@ Proof.
     + right. exists r', m'. split; [now right|auto].
 Qed.
 
-Lemma count_models_ok mv rows : rows_good mv rows -> forall acc, exists models, count_models mv rows acc = Ok models.
-Proof.
-  induction rows as [|r t IH]; intros HG acc; [eexists; reflexivity|].
-  destruct (HG r (or_introl eq_refl)) as (_ & m & n & Em & _).
-  cbn [count_models]. rewrite Em. cbn [get bind]. apply IH. intros r' Hr'. apply HG. now right.
-Qed.
-
 (* several models: MODEL n / the rows of that model in file order / ENDMDL, per
    distinct model number in order of first appearance; no exception, no error entry *)
 Theorem atom_site_models_partial : forall mv rows models,
-  rows_good mv rows ->
+  mv_ok mv = true -> rows_good rows ->
   count_models mv rows [] = Ok models -> List.length models <> 1 ->
   exists blocks,
     atom_site mv rows = mkout (concat blocks) [] None /\
     Forall2 (block_ok mv rows) models blocks.
 Proof.
-  intros mv rows models HG HC Hn. unfold atom_site. rewrite HC.
+  intros mv rows models Hmv HG HC Hn. unfold atom_site. rewrite HC.
   destruct (Nat.eqb (List.length models) 1) eqn:E; [apply Nat.eqb_eq in E; congruence|].
-  destruct (models_loop_guard mv rows models HG) with (acc := @nil record) as (blocks & E2 & F2).
+  destruct (models_loop_guard mv rows models Hmv HG) with (acc := @nil record) as (blocks & E2 & F2).
   - intros j Hj.
     assert (HT : forall r, In r rows -> exists m, pdbx_PDB_model_num r = Tok m)
       by (intros r Hr; destruct (HG r Hr) as (_ & m & n & Em & _); eauto).
@@ -993,3 +882,7 @@ Proof.
     destruct (HG r Hr) as (_ & m' & n & Em' & Hm & Hi). rewrite Em in Em'. inversion Em'; subst m'. eauto.
   - exists blocks. split; [exact E2|exact F2].
 Qed.
+
+(* the two conventions that exist: installed mmcif_pdbx 2.1.0 and verbatim tokens *)
+Corollary cif_eq_pdb_both : forall r, guard r = true -> agrees mv_installed r /\ agrees mv_legacy r.
+Proof. intros r HG. split; apply guard_agrees; auto using mv_ok_installed, mv_ok_legacy. Qed.
